@@ -26,7 +26,9 @@ pub fn get_message(squitter: &str) -> Option<Vec<u32>> {
             // DF 0-15 are 56-bit frames, DF 16-31 112-bit frames
             super::get_downlink_format(message).is_some_and(|df| (df >= 16) == (message.len() == 28))
         })
-        .filter(|message| reminder(message) == 0)
+        .filter(|message| {
+            super::get_downlink_format(message).is_some_and(|df| parity_ok(message, df))
+        })
 }
 
 pub(crate) fn get_hex_message(message: &[u32]) -> String {
